@@ -193,6 +193,33 @@ pub struct InterpRun {
     pub repeat_mismatch: Option<String>,
 }
 
+/// accumulation workloads: how many cases were soaked and how many extra executions that made
+pub static SOAKS: std::sync::atomic::AtomicU64 = std::sync::atomic::AtomicU64::new(0);
+pub static SOAK_EXECS: std::sync::atomic::AtomicU64 = std::sync::atomic::AtomicU64::new(0);
+pub static SOAK_RECOMPILES: std::sync::atomic::AtomicU64 = std::sync::atomic::AtomicU64::new(0);
+static SOAK_TICK: std::sync::atomic::AtomicU64 = std::sync::atomic::AtomicU64::new(0);
+/// one case in `SOAK_EVERY` (short executions only) is due for a soak
+pub static SOAK_EVERY: std::sync::atomic::AtomicU64 = std::sync::atomic::AtomicU64::new(6000);
+pub fn soak_n() -> u64 {
+    if cfg!(miri) { 0 } else if sys::cpu_scale() > 1 { 700 } else { 66_000 }
+}
+static SOAK_TICK2: std::sync::atomic::AtomicU64 = std::sync::atomic::AtomicU64::new(0);
+/// compiled cases (run in forked children, which inherit the tick of the moment of the fork)
+pub fn soak_due_compiled() -> bool {
+    if cfg!(miri) {
+        return false;
+    }
+    let every = SOAK_EVERY.load(std::sync::atomic::Ordering::Relaxed) / 4;
+    every != 0 && SOAK_TICK2.fetch_add(1, std::sync::atomic::Ordering::Relaxed) % every == every / 2
+}
+pub fn soak_due(steps: u64) -> bool {
+    if cfg!(miri) || steps > 400 {
+        return false;
+    }
+    let every = SOAK_EVERY.load(std::sync::atomic::Ordering::Relaxed);
+    every != 0 && SOAK_TICK.fetch_add(1, std::sync::atomic::Ordering::Relaxed) % every == every / 2
+}
+
 pub const BUDGET_MSG: &str = "verif-hooks instruction budget exhausted";
 
 /// Run the case on the real interpreter (in-process, panics caught).
@@ -312,6 +339,48 @@ pub fn run_interp(c: &Case, bufs: &Bufs, budget: u64, trace_cap: usize) -> Inter
             if !same {
                 repeat = Some(format!("first execution {:?} ({steps1} steps), second execution on the same VM {:?} ({} steps)", r.as_ref().map_err(|e| e.chars().take(60).collect::<String>()), r2.as_ref().map_err(|e| e.chars().take(60).collect::<String>()), hooks::count()));
             }
+        }
+        // accumulation: one case in SOAK_EVERY is executed SOAK_N more times on the same VM object
+        // (more than 2^16: counters, generations and caches kept in narrow types or with a fixed
+        // capacity wrap or fill up only then); value, step count, pc fold, packet bytes and the
+        // number of helper calls of EVERY execution must equal the first one's
+        if repeat.is_none() && soak_due(hooks::count()) {
+            let (steps1, hash1) = (hooks::count(), hooks::pc_hash());
+            let pkt1 = bufs.pkt_bytes();
+            let mb1 = bufs.mbuff_bytes();
+            let nlog1 = hlp::log_total();
+            let n = soak_n();
+            SOAKS.fetch_add(1, std::sync::atomic::Ordering::Relaxed);
+            hooks::clear_trace_buffer();
+            for k in 0..n {
+                bufs.reset(c);
+                hlp::log_reset();
+                hooks::reset(budget, true);
+                let rk = vm.exec(bufs.pkt_raw(), bufs.mbuff_raw());
+                let mut same = match (&r, &rk) {
+                    (Ok(a), Ok(b)) => a == b,
+                    (Err(_), Err(_)) => true,
+                    _ => false,
+                } && steps1 == hooks::count()
+                    && hash1 == hooks::pc_hash()
+                    && nlog1 == hlp::log_total();
+                if same && (k % 64 == 63 || k + 1 == n || k < 4) {
+                    same = pkt1 == bufs.pkt_bytes() && (c.kind != crate::engines::Kind::Mbuff || mb1 == bufs.mbuff_bytes());
+                }
+                SOAK_EXECS.fetch_add(1, std::sync::atomic::Ordering::Relaxed);
+                if !same {
+                    repeat = Some(format!("first execution {:?} ({steps1} steps); execution #{} on the same VM {:?} ({} steps, {} helper calls vs {nlog1})", r.as_ref().map_err(|e| e.chars().take(60).collect::<String>()), k + 3, rk.as_ref().map_err(|e| e.chars().take(60).collect::<String>()), hooks::count(), hlp::log_total()));
+                    break;
+                }
+            }
+            // leave the hooks / buffers / log as the first execution left them
+            bufs.reset(c);
+            hlp::log_reset();
+            hooks::reset(budget, true);
+            if trace_cap > 0 {
+                hooks::set_trace_buffer(&mut trace);
+            }
+            let _ = vm.exec(bufs.pkt_raw(), bufs.mbuff_raw());
         }
         match r {
             Ok(v) => Ran::Ok(v),
@@ -501,6 +570,8 @@ pub struct ChildRec {
     pub mbuff: Vec<u8>,
     pub log: Vec<hlp::LogEntry>,
     pub canary_ok: bool,
+    /// extra executions / re-compilations made on the same VM by the accumulation step (0 = none)
+    pub soaked: u32,
 }
 
 fn put_bytes(out: &mut Vec<u8>, b: &[u8]) {
@@ -524,6 +595,7 @@ impl ChildRec {
             }
             out.extend_from_slice(&e.rsp.to_le_bytes());
         }
+        out.extend_from_slice(&self.soaked.to_le_bytes());
     }
     pub fn decode(b: &[u8]) -> Option<ChildRec> {
         let mut p = 0usize;
@@ -558,7 +630,8 @@ impl ChildRec {
             let rsp = rd64(&mut p)?;
             log.push(hlp::LogEntry { j, args, rsp });
         }
-        Some(ChildRec { status, value, msg, pkt, mbuff, log, canary_ok })
+        let soaked = b.get(p..p + 4).and_then(|x| x.try_into().ok()).map(u32::from_le_bytes).unwrap_or(0);
+        Some(ChildRec { status, value, msg, pkt, mbuff, log, canary_ok, soaked })
     }
 }
 
@@ -576,7 +649,7 @@ pub fn exec_memory(len: usize) -> &'static mut [u8] {
 pub fn child_run_case(c: &Case, bufs: &Bufs, engine: Engine, family: Family, out: &mut Vec<u8>) {
     bufs.reset(c);
     hlp::log_reset();
-    let mut rec = ChildRec { status: 0, value: 0, msg: String::new(), pkt: Vec::new(), mbuff: Vec::new(), log: Vec::new(), canary_ok: true };
+    let mut rec = ChildRec { status: 0, value: 0, msg: String::new(), pkt: Vec::new(), mbuff: Vec::new(), log: Vec::new(), canary_ok: true, soaked: 0 };
     let built = sys::catch(|| build_vm(c, family));
     let mut vm = match built {
         Ok(Ok(v)) => v,
@@ -744,6 +817,54 @@ pub fn child_run_case(c: &Case, bufs: &Bufs, engine: Engine, family: Family, out
                     rec.status = 6;
                     rec.msg = format!("first execution returned {v:#x}; a second execution of the same compiled program on the restored buffers gave {:?}", r2.map(|x| x.map_err(|e| e.chars().take(60).collect::<String>())));
                 }
+            }
+            // accumulation: one short case in SOAK_EVERY / 4 is executed SOAK_N more times on the
+            // same compiled VM, then re-compiled 300 times (executed after each re-compilation)
+            if engine != Engine::Interp && rec.status == 0 && c.prog.len() <= 8 * 64 && soak_due_compiled() {
+                let pkt1 = bufs.pkt_bytes();
+                let nlog1 = hlp::log_total();
+                let n = soak_n();
+                let recompiles = if n >= 66_000 { 300 } else { 4 };
+                for k in 0..n + recompiles {
+                    if k >= n {
+                        #[cfg(not(any(feature = "std", feature = "stdlite")))]
+                        if engine == Engine::Jit {
+                            let need = (c.prog.len() / 8 * 64 + 8192 + 4095) & !4095;
+                            let _ = vm.set_jit_exec_memory(exec_memory(need));
+                        }
+                        let rc = sys::catch(|| match engine {
+                            Engine::Jit => vm.jit_compile(),
+                            #[cfg(feature = "std")]
+                            Engine::Cranelift => vm.cl_compile(),
+                            _ => Ok(()),
+                        });
+                        if !matches!(rc, Ok(Ok(()))) {
+                            rec.status = 6;
+                            rec.msg = format!("re-compilation #{} of the same program on the same VM: {:?}", k - n + 1, rc);
+                            break;
+                        }
+                    }
+                    bufs.reset(c);
+                    hlp::log_reset();
+                    let rk = sys::catch(|| unsafe {
+                        match engine {
+                            Engine::Jit => vm.exec_jit(bufs.pkt_raw(), bufs.mbuff_raw()),
+                            #[cfg(feature = "std")]
+                            Engine::Cranelift => vm.exec_cl(bufs.pkt_raw(), bufs.mbuff_raw()),
+                            _ => Ok(v),
+                        }
+                    });
+                    let mut same = matches!(&rk, Ok(Ok(vk)) if *vk == v) && nlog1 == hlp::log_total();
+                    if same && (k % 64 == 63 || k + 1 == n + recompiles || k < 4 || k >= n) {
+                        same = pkt1 == bufs.pkt_bytes();
+                    }
+                    if !same {
+                        rec.status = 6;
+                        rec.msg = format!("first execution returned {v:#x}; execution #{} of the same compiled program on the same VM{} gave {:?} ({} helper calls vs {nlog1})", k + 2, if k >= n { format!(" (after {} re-compilations)", k - n + 1) } else { String::new() }, rk.map(|x| x.map_err(|e| e.chars().take(60).collect::<String>())), hlp::log_total());
+                        break;
+                    }
+                }
+                rec.soaked = (n + recompiles) as u32;
             }
         }
         Ok(Err(e)) => {
